@@ -56,6 +56,16 @@ CONF = {
         "tiers": tiers(8, 12000, 16, 250000),
         "require_classes": ["mode:none", "mode:manual", "mode:autoinj", "total<=0", "trigger-enabled-later", "completed", "aborted", "refill-read", "statistics-read"],
     },
+    "C20": {
+        "rule": "cases = one of: size/counter decorators (Current/Total/Counters x unit x format flags,width,precision,verb x int64 values at unit boundaries, mantissa*unit values, random), percentage (current at k/2000 of total, products beyond 2^64), elapsed / ETA / average ETA over the four time styles with durations below 60 h, moving-average and average speed, estimator sample sequences (0-50 samples incl. zero-progress and zero-duration samples, 0-4 wrapper layers, direct or through Bar.EwmaIncrInt64, recording or median average), freeze of elapsed/average speed on completion; non-trivial = value >= 1 unit above b with precision>0 or at a unit boundary, 0<current<total for percentages, durations >= 1 min, a zero-progress sample followed by progress, a twin decorator that did move while the frozen one did not; distinct by FNV-64 of the case JSON",
+        "assumptions": GO_ASSUME + [
+            "tolerance = half a unit of the last printed digit for the verb/precision in use plus 8 ulp of float64 (the decorators compute in float64)",
+            "values derived from time.Since are bracketed between two clock reads of the oracle; the printed value must be the truncation of some instant in the bracket",
+            "verb b (binary exponent form) is not generated: Go cannot parse it back; speeds are kept <= 1e18 B/s (int64 bytes per second)",
+        ],
+        "tiers": tiers(8, 12000, 16, 300000),
+        "require_classes": ["kind:size", "kind:pair", "kind:pct", "kind:elapsed", "kind:eta", "kind:avgeta", "kind:speed", "kind:avgspeed", "kind:ewma", "kind:freeze", "current>2^64/100", "value>2^53", "unit-boundary", "duration>=24h", "zero-then-progress", "via-bar", "wrap-depth:4", "twin-moved", "avg:median"],
+    },
     "C05": {
         "rule": "cases = sequential scenarios (container config, 1-7 bar specs, program of add/incr/set/abort/priority/write/tick/cancel steps) drawn by rapid; non-trivial = >=3 frames and >=1 change of the displayed set between frames; distinct by FNV-64 of the scenario JSON",
         "assumptions": GO_ASSUME + SCHED_ASSUME + ["one output Write call = one frame (cwriter flushes its buffer with a single Write)", "exact frame model only for manual refresh, sequential client and queue length > number of bars; otherwise history invariants"],
